@@ -52,6 +52,21 @@ CHECKS = {
              ]},
         ],
     },
+    "C06": {
+        "explanation": "bounded exhaustive exploration (symbolic executor, choices as decision variables) of metadata histories applied through the real Server.Apply/apply/Snapshot/Persist/Restore/finishedRecovery on never-started servers over memFS, with a Raft stand-in (log store + commit index)",
+        "assumptions": ["hashicorp/raft is a stand-in: a log store (FirstIndex/GetLog) and a commit index; after a restart the snapshot is restored, the entries after it are re-applied in order with the commit index at the end of the log",
+                        "the server's id is not a replica of any partition (no leader/follower loops, no NATS)",
+                        "operations are drawn from 12 kinds over 2 streams x 1 partition, 3 replica ids, 1 group, 2 consumers; Raft indices are 1..k",
+                        "Snapshot().Persist concurrent with Apply below operation granularity is outside (shared *proto.Partition pointers: a data race)"],
+        "groups": [
+            {"pkg": "./server", "overlay": "server", "pkgname": "server",
+             "harnesses": [
+                 {"name": "VerifC06FSM", "quick": {"ops": 3, "kinds": 12}, "thorough": {"ops": 4, "kinds": 12}, "replay": "interpreted", "max-paths": 2000000,
+                  "covers": ["done", "history-applied", "restored-from-snapshot", "replayed"],
+                  "targets": ["Server).Apply", "Server).Snapshot", "Server).Restore", "Server).finishedRecovery", "metadataAPI).AddStream", "metadataAPI).ResumePartition"]},
+             ]},
+        ],
+    },
     "C08": {
         "explanation": "bounded symbolic execution of commitLog.Clean with compaction on the real log over memFS, survivors compared with an independent oracle",
         "assumptions": ["memFS models the file system", "message timestamps are positive and non-decreasing (server wall clock)",
@@ -171,6 +186,8 @@ CHECKS = {
 TECH = "bounded symbolic execution of the real Go code (go/ssa) with z3; counterexamples replayed natively"
 
 META = {
+    "C06": {"text": "Bounded model checking of the implementation by the symbolic executor: every valid history of k operations (12 kinds, validity decided by the real check*Preconditions) is applied through the real Server.Apply on two servers (determinism), snapshotted at every position j, and a third server is restarted on the first one's data directory by Restore(snapshot@j) plus replay of j+1..k through the real recovery-range detection; streams, partitions, leaders, ISR, epochs, paused/read-only flags (as enforced by the commit log), groups, members, coordinators, the deferred-start flag and the stream data directories are compared.",
+            "design_ref": "DESIGN.md §4 C06", "note": "bounds: k = 3 (quick) / 4 (thorough) operations, all snapshot positions 0..k; the data here is concrete-shaped, so the solver's role is small: the quantifier is covered by exhaustive enumeration of decision vectors in the executor; counterexamples are replayed by concrete re-execution in the interpreter (the harness depends on the Raft stand-in)", "technique": TECH},
     "C19": {"text": "Symbolic execution of the real collector (New/Start/run/sendTelemetry/collectPayload/loadOrCreateInstanceID) with a symbolic enabled flag, a virtual clock that lets two reporting intervals pass, memFS for the instance-id file and the HTTP stack as an effect recorder: disabled => no request at all; enabled => endpoint fixed, JSON keys within the documented set, the data directory string (standing for everything the server passes in) absent from URL, headers and body. This is the thinnest check of the set: one symbolic boolean; its value is that it re-derives the key set and the data flow from the current source on every run.",
             "design_ref": "DESIGN.md §4 C19", "note": "what is not decided: viper env/file/flag resolution, the two gates in server.go (Server.Start), the real HTTP transport, what the OS reveals through runtime.Version()", "technique": TECH},
     "C17": {"text": "Bounded symbolic model checking of the framing and data flow of server-side encryption: Seal/Read round trip for every value up to the bound, Read total (error, never a panic) on every byte string up to the bound, on every truncation of a sealed value and on every corruption of the key-size byte. The cryptography itself is replaced by stand-ins and is not claimed.",
